@@ -211,3 +211,153 @@ def tags_c02(h, obs):
                 if tx.kind == "ibtp":
                     t.add(f"ibtp:{'req' if tx.typ == 'req' else 'rcpt'}:{'ok' if rc.ok else rc.ret}")
     return t
+
+
+# ------------------------------------------------------------------------------------------ C04 / C06
+# Protocol automaton of a one-to-one cross-chain transaction, written from the property text:
+#   request accepted           -> BEGIN(0)   (BEGIN_FAILURE(1) when the destination is unavailable)
+#   BEGIN  + success receipt   -> SUCCESS(3);  BEGIN + failure receipt -> FAILURE(4)
+#   BEGIN  at height H+T with no accepted receipt in blocks <= H+T -> BEGIN_ROLLBACK(2), listed once for the source chain
+#   BEGIN_FAILURE + failure    -> FAILURE(4)
+#   BEGIN_ROLLBACK + rollback/failure receipt -> ROLLBACK(5)
+#   3,4,5 final.
+MAXU64 = 2 ** 64 - 1
+EDGE = {(0, "ok"): 3, (0, "fail"): 4, (1, "fail"): 4, (2, "rb"): 5, (2, "fail"): 5}
+REACH = {None: {None, 0, 1, 2, 3, 4, 5}, 0: {0, 2, 3, 4, 5}, 1: {1, 4}, 2: {2, 5}, 3: {3}, 4: {4}, 5: {5}}
+
+
+class One:
+    def __init__(self):
+        self.status = None
+        self.deadline = None   # height at which it times out, or None
+        self.H = None
+        self.listed_at = []
+        self.batch_rcpt = False   # a receipt returning 'batch_ibtp' (unordered SOURCE service) was accepted
+
+
+def mon_c04_c06(h, obs, which):
+    """which in {'C04','C06'}: same trace interpretation, hits are attributed by clause."""
+    hits = []
+    ones = {}        # id -> One (non-group ids only)
+    group_ids = set()
+    seen = {}        # id -> last observed status (for the path check)
+    fee_failed = set()
+
+    def hit(prop, fp, msg, detail=None, tid=None):
+        if prop != which:
+            return
+        o = ones.get(tid) if tid else None
+        if o is not None and o.batch_rcpt and ("timed-out" in fp or "overwritten" in fp or "final-changed" in fp or "altered-by-timeout" in fp):
+            fp = f"{prop}/unordered-source-receipt-not-removed"
+        hits.append(Hit(fp, msg, detail=detail))
+
+    for st in parse_trace(h, obs):
+        if st[0] == "block":
+            b = st[1]
+            if not b.ok:
+                continue
+            for i, (tx, rc) in enumerate(zip(b.txs, b.rcs)):
+                if tx.kind != "ibtp" or tx.id is None:
+                    continue
+                if tx.group is not None:
+                    group_ids.add(tx.id)
+                    continue
+                if tx.id in group_ids:
+                    continue
+                o = ones.setdefault(tx.id, One())
+                if tx.typ == "req" and not rc.ok and rc.ret == "fee":
+                    fee_failed.add(tx.id)
+                if tx.typ == "req" and rc.ok:
+                    if rc.ret == "batch_ibtp":
+                        # documented batch mode (unordered destination): outside the ordered protocol
+                        group_ids.add(tx.id)
+                        continue
+                    if o.status is not None:
+                        hit("C04", "C04/request-accepted-twice", f"request {tx.id} accepted again in block {b.h} while its status was {o.status}", b.op)
+                    o.status = 1 if rc.ret == "begin_failure" else 0
+                    o.H = b.h
+                    T = tx.timeout
+                    o.deadline = b.h + T if (o.status == 0 and 0 < T < MAXU64 - b.h) else None
+                elif tx.typ in ("ok", "fail", "rb") and rc.ok:
+                    if rc.ret == "batch_ibtp" and o.status is None:
+                        continue
+                    if rc.ret == "batch_ibtp":
+                        o.batch_rcpt = True
+                    nxt = EDGE.get((o.status, tx.typ))
+                    if nxt is None:
+                        fp = "C04/receipt-after-final" if o.status in (3, 4, 5) else "C04/receipt-off-protocol"
+                        hit("C04", fp, f"receipt '{tx.typ}' for {tx.id} accepted in block {b.h} while the protocol status was {o.status}", b.op)
+                    else:
+                        o.status = nxt
+                        if nxt in (3, 4):
+                            o.deadline = None
+            # timeouts due in this block
+            listed = {}
+            for c, ids in b.timeout.items():
+                for x in ids:
+                    listed.setdefault(x, []).append(c)
+            for tid, o in ones.items():
+                if tid in group_ids:
+                    continue
+                if o.deadline == b.h and o.status == 0:
+                    o.status = 2
+                    src_chain = tid.split("-")[0].split(":")[1]
+                    if listed.get(tid, []) != [src_chain]:
+                        hit("C06", "C06/timeout-not-listed-at-deadline",
+                            f"{tid} accepted at {o.H} reached its timeout height {b.h} without a receipt but the block's timeout list has it for {listed.get(tid, [])}", b.raw)
+                    o.listed_at.append(b.h)
+                elif tid in listed:
+                    why = "after-failure-receipt" if o.status == 4 else ("after-success-receipt" if o.status == 3 else f"status-{o.status}")
+                    hit("C06", f"C06/listed-as-timed-out/{why}",
+                        f"{tid} is listed as timed out in block {b.h} (for {listed[tid]}) but its protocol status is {o.status} (accepted at {o.H}, deadline {o.deadline})", b.raw, tid=tid)
+        elif st[0] == "q" and st[1] == "status":
+            tid = st[2]
+            if tid in group_ids or tid not in ones:
+                continue
+            val = None if st[3] == "none" else int(st[3]) if st[3].isdigit() else "?"
+            o = ones[tid]
+            if val == "?":
+                continue
+            prev = seen.get(tid)
+            if val not in REACH.get(prev, set()):
+                kind = "final-changed" if prev in (3, 4, 5) else "off-protocol-path"
+                hit("C04", f"C04/status-{kind}/{prev}->{val}",
+                    f"status of {tid} went from {prev} to {val}, which is not a path of the protocol state machine", st[3], tid=tid)
+            seen[tid] = val
+            if val != o.status:
+                # attribute: a timeout-driven change belongs to C06, everything else to C04
+                if val == 2 and o.status in (3, 4, 5):
+                    hit("C06", f"C06/status-altered-by-timeout/{o.status}->2",
+                        f"{tid} had reached final status {o.status} by an accepted receipt, yet the timeout mechanism moved it to BEGIN_ROLLBACK", st[3], tid=tid)
+                    hit("C04", f"C04/final-status-overwritten/{o.status}->2",
+                        f"{tid}: final status {o.status} was overwritten with BEGIN_ROLLBACK", st[3], tid=tid)
+                elif o.status is None and tid in fee_failed:
+                    hit("C04", "C04/status-of-fee-failed-request",
+                        f"GetStatus({tid}) = {val} although the request was rejected (FAILED: fee)", st[3])
+                else:
+                    hit("C04", f"C04/status-query-mismatch/{o.status}-vs-{val}",
+                        f"GetStatus({tid}) = {val} but the accepted events lead to {o.status}", st[3])
+                o.status = val   # resynchronise to avoid cascades
+    return hits
+
+
+def mon_c04(h, obs):
+    return mon_c04_c06(h, obs, "C04")
+
+
+def mon_c06(h, obs):
+    return mon_c04_c06(h, obs, "C06")
+
+
+def tags_c04(h, obs):
+    t = set()
+    last = {}
+    for st in parse_trace(h, obs):
+        if st[0] == "q" and st[1] == "status" and st[3].isdigit():
+            p = last.get(st[2])
+            if p != st[3]:
+                t.add(f"edge:{p}->{st[3]}")
+            last[st[2]] = st[3]
+        if st[0] == "block" and st[1].ok and st[1].timeout:
+            t.add("timeout-fired")
+    return t
